@@ -222,7 +222,14 @@ func c20Find(c *Ctx, cs *C20Case, r *Rng, out *CaseOut, wantSig string) []c20Fai
 	again := &FaultWriter{K: len(base.Calls)}
 	ares := x.run(again)
 	if ares.Key() != bres.Key() || string(again.Accepted) != string(base.Accepted) {
-		fatal("C20 self-check: fault-free re-render differs from baseline for %q: %s vs %s", x.src, ares.Key(), bres.Key())
+		// Two fault-free renders disagree: there is no well-defined fault-free output to
+		// judge prefixes against. That is a C02/C03 matter; this case gives no C20 verdict.
+		if c != nil {
+			c.count("unstable_fault_free_baseline", 1)
+			c.logf("unstable baseline")
+		}
+		out.Discarded = true
+		return nil
 	}
 	var fails []c20Fail
 	sigs := map[string]bool{}
@@ -332,23 +339,12 @@ func (ck c20) Replay(c *Ctx, v *Violation) *Violation {
 	if err := json.Unmarshal(v.Case, &cs); err != nil {
 		fatal("replay: %v", err)
 	}
-	x, pres := c20Setup(&cs)
-	if x == nil {
-		fmt.Printf("replay: setup failed: %s\n", pres.Key())
-		return nil
-	}
-	base := &FaultWriter{K: -1}
-	bres := x.run(base)
-	if bres.Panic != "" {
-		fmt.Printf("replay: fault-free baseline panics: %s\n", bres.Panic)
-		return nil
-	}
-	w := &FaultWriter{K: cs.K, Accept: cs.Accept, Sticky: cs.Sticky}
-	res := x.run(w)
-	clause, detail, sig := c20Judge(res, w, base.Accepted)
-	fmt.Printf("replay: template %q entry=%s k=%d accept=%d sticky=%v -> %s\n", x.src, epNames[cs.EP], cs.K, cs.Accept, cs.Sticky, res.Key())
-	if clause == v.Clause {
-		return &Violation{Property: "C20", Clause: clause, Detail: detail, Signature: sig}
+	// The whole fault enumeration of the case is re-executed (not only the failing
+	// execution): a failure may need the residue of the faulted render before it.
+	out := &CaseOut{}
+	for _, f := range c20Find(nil, &cs, NewRng(1), out, v.Signature) {
+		fmt.Printf("replay: template %q entry=%s k=%d accept=%d sticky=%v -> %s\n", Source(cs.Tree), epNames[cs.EP], f.k, f.accept, f.sticky, f.detail)
+		return &Violation{Property: "C20", Clause: f.clause, Detail: f.detail, Signature: f.sig}
 	}
 	return nil
 }
